@@ -385,11 +385,16 @@ fn main() {
                     _ => {}
                 }
             }
+            // A crash that does not reproduce in a fresh process is typically a use of freed memory
+            // whose effect depends on the heap of a long-running process.  run.sh replays the traced
+            // cases in the AddressSanitizer build (exit code 3 asks for that).
             println!(
-                "INCONCLUSIVE property={} crash with signal {} could not be reproduced from traced cases",
-                args.id, sig
+                "CRASH-UNREPRODUCED property={} signal={} traces={}",
+                args.id,
+                sig,
+                trace_dir.display()
             );
-            std::process::exit(2);
+            std::process::exit(3);
         }
     }
 }
